@@ -96,7 +96,23 @@ theorem bad_unit_rejected (i : PriorInput) (p : Int) (hp : i.polyTrend = some p)
     rw [hp] at hp'; cases hp'
     obtain ⟨par', hl', hu'⟩ := hpres (n, d) hreq
     rw [hl] at hl'; cases hl'
-    exact hbad hu'
+    exact hbad hu'.1
+
+/-- a required parameter whose entry holds a variable that is called something else in the pymc model (the likelihood
+helper fetches `prior.model[name]`: it would marginalise over another, unvalidated prior) -/
+theorem misnamed_variable_rejected (i : PriorInput) (p : Int) (hp : i.polyTrend = some p) (n : Name) (d : Dim)
+    (hreq : (n, d) ∈ required p i.offsets.length) (par : Param) (hl : lookup (envOf i) n = some par)
+    (hbad : par.named = false) : ∃ e, validate i = .error e := by
+  cases hv : validate i with
+  | error e => exact ⟨e, rfl⟩
+  | ok names =>
+    exfalso
+    obtain ⟨_, _, _, p', hp', hpres, _⟩ := (accept_iff_wellformed i).mp ⟨names, hv⟩
+    rw [hp] at hp'; cases hp'
+    obtain ⟨par', hl', hu'⟩ := hpres (n, d) hreq
+    rw [hl] at hl'; cases hl'
+    rw [hbad] at hu'
+    exact Bool.noConfusion hu'.2
 
 /-- a linear parameter (K, v_i, offset) whose prior is not Normal / FixedCompanionMass -/
 theorem non_normal_rejected (i : PriorInput) (p : Int) (hp : i.polyTrend = some p) (n : Name)
@@ -233,19 +249,20 @@ theorem joker_init_iff (poolOk rngOk priorOk : Bool) :
 defined with a Uniform prior and then redefined (later dict entry wins) as FixedCompanionMass -/
 def exGood : PriorInput :=
   { modelOk := true, parsStatus := .ok, polyTrend := some 2, offsetsIterable := true,
-    pars := [⟨.K, some (Dim.vel 0), .otherRV⟩, ⟨.P, some Dim.time1, .otherRV⟩, ⟨.e, some Dim.one, .otherRV⟩,
-             ⟨.omega, some Dim.angle1, .unnamedOp⟩, ⟨.M0, some Dim.angle1, .unnamedOp⟩, ⟨.s, some (Dim.vel 0), .noOwner⟩,
-             ⟨.K, some (Dim.vel 0), .fcm⟩, ⟨.v 0, some (Dim.vel 0), .normal⟩, ⟨.v 1, some (Dim.vel 1), .normal⟩],
-    offsets := [⟨.dv0 1, some (Dim.vel 0), .normal⟩] }
+    pars := [⟨.K, some (Dim.vel 0), .otherRV, true⟩, ⟨.P, some Dim.time1, .otherRV, true⟩, ⟨.e, some Dim.one, .otherRV, true⟩,
+             ⟨.omega, some Dim.angle1, .unnamedOp, true⟩, ⟨.M0, some Dim.angle1, .unnamedOp, true⟩, ⟨.s, some (Dim.vel 0), .noOwner, true⟩,
+             ⟨.K, some (Dim.vel 0), .fcm, true⟩, ⟨.v 0, some (Dim.vel 0), .normal, true⟩, ⟨.v 1, some (Dim.vel 1), .normal, true⟩],
+    offsets := [⟨.dv0 1, some (Dim.vel 0), .normal, true⟩] }
 
 example : validate exGood = .ok [.P, .e, .omega, .M0, .s, .K, .v 0, .v 1, .dv0 1] := by decide
 example : WellFormed exGood := (accept_iff_wellformed exGood).mp ⟨[.P, .e, .omega, .M0, .s, .K, .v 0, .v 1, .dv0 1], by decide⟩
 -- one broken branch each
 example : validate { exGood with pars := exGood.pars.filter (fun p => p.name ≠ .e) } = .error .value := by decide
-example : validate { exGood with offsets := [⟨.dv0 2, some (Dim.vel 0), .normal⟩] } = .error .value := by decide
-example : validate { exGood with offsets := [⟨.dv0 1, some (Dim.vel 0), .otherRV⟩] } = .error .value := by decide
-example : validate { exGood with pars := exGood.pars ++ [⟨.v 1, some (Dim.vel 0), .normal⟩] } = .error .value := by decide
-example : validate { exGood with pars := exGood.pars ++ [⟨.v 0, some (Dim.vel 0), .unnamedOp⟩] } = .error .unspecified := by decide
+example : validate { exGood with offsets := [⟨.dv0 2, some (Dim.vel 0), .normal, true⟩] } = .error .value := by decide
+example : validate { exGood with pars := exGood.pars ++ [⟨.v 0, some (Dim.vel 0), .normal, false⟩] } = .error .value := by decide
+example : validate { exGood with offsets := [⟨.dv0 1, some (Dim.vel 0), .otherRV, true⟩] } = .error .value := by decide
+example : validate { exGood with pars := exGood.pars ++ [⟨.v 1, some (Dim.vel 0), .normal, true⟩] } = .error .value := by decide
+example : validate { exGood with pars := exGood.pars ++ [⟨.v 0, some (Dim.vel 0), .unnamedOp, true⟩] } = .error .unspecified := by decide
 example : validateData (.multi [.rv false, .rv false]) 1 = .ok 2 := by decide
 example : validateData (.multi [.rv false, .rv false, .rv false]) 1 = .error .value := by decide
 example : validateData (.multi [.rv false, .rv true, .notRV]) 2 = .error .notimpl := by decide
